@@ -97,6 +97,7 @@ def eval_hist(task):
     last_blk = npre + nb
     errs = [d for d in r.diags if d[0] == "Error"]
     out = {
+        "first_blk": npre + (rp.block_first_line[-opts["rel"]] if opts.get("rel") and len(ids) >= opts["rel"] else 1),
         "errs": errs,
         "in_block": [d for d in errs if d[2] is not None and first_blk <= d[2] <= last_blk],
         "exc": r.exc,
